@@ -182,7 +182,8 @@ func updateRegex(filePath string, ruleId string, chainOffset uint8, newRegex str
 
 	lines := bytes.Split(contents, []byte("\n"))
 
-	idRegex := regexp.MustCompile(fmt.Sprintf("id:%s", ruleId))
+	// the id action of the rule, not a mention of it in a comment
+	idRegex := regexp.MustCompile(fmt.Sprintf("^[^#]*id:%s", ruleId))
 	index := 0
 	var line []byte
 	foundRule := false
